@@ -74,6 +74,14 @@ var props = map[string]*propCfg{
 		Technique:   "runtime oracle monitoring: sign(stored - exact) by exact big.Int comparison on generated hostile inputs",
 		DesignRef:   "DESIGN.md §4 C02",
 	},
+	"C06": {
+		Rule: "Word-level cases through the verif exports: dec.mul (balanced, 1:2, 1:10, random lengths; dirty destination buffers), dec.sqr, dec.div on operands of 1..420 words (thorough: 1 100) whose words are drawn from {0, 1, 2, 10, 10^9, 10^18, base/2-1, base/2, base/2+1, base-2, base-1, random}; divisions: constructed add-back pairs (v=[..,0,base/2], u=[..,0,0,k]: the two-word test passes and q̂ is one too large), exact u=q*v, u=q*v+(v-1), dividends whose leading words equal the divisor's (q̂=base-1 path), 1- and 2-word divisors, divisors of 100..230 words with dividends spanning several recursion blocks; plus end-to-end Mul at precision = total digits (exact product) and Quo with the exact/inexact decision judged. Half of the cases run under a random threshold assignment (Karatsuba 2..40, basicSqr in {1,2,3,5,10,20}, karatsubaSqr in {2,3,4,6,11,50,100}) and half with the scratch pool poisoned (every buffer handed out or returned is overwritten with a word >= base). Oracle: big.Int product / QuoRem of the word vectors converted by harness code; operands unchanged; every output word < base. Hook counters prove that the add-back, q̂ correction, recursive corrections and Karatsuba branches were reached. Non-trivial = multi-word operands.",
+		Assumptions: []string{"thresholds and the pool callback are changed only between cases in a single-threaded worker", "the recursive-division threshold is a constant (100 words): both sides of it are exercised through the divisor length"},
+		Floors:      []floor{{"hit_div_add_back", 1000}, {"hit_div_qhat_fix", 1000}, {"hit_div_rec_fix1", 500}, {"hit_div_rec_fix2", 300}, {"hit_div_recursive", 500}, {"hit_karatsuba", 5000}, {"hit_karatsuba_negative", 1000}, {"hit_karatsuba_sqr", 1000}, {"hit_basic_sqr", 1000}, {"mul/", 5000}, {"sqr/", 3000}, {"div/", 8000}, {"Quo/e2e", 1000}, {"Mul/e2e", 1000}},
+		LevelText:   "Runtime monitoring of the multi-word routines against big.Int with adversarial word patterns, every threshold assignment family and a poisoned scratch pool; branch-hit counters from tag-guarded hooks show that the rare correction paths were actually executed.",
+		Technique:   "runtime differential monitoring vs big.Int through tag-guarded exports; branch-hit counters; pool poisoning",
+		DesignRef:   "DESIGN.md §4 C06",
+	},
 }
 
 func writeManifest() {
